@@ -22,7 +22,7 @@ Lemma members_final_init (r : row) : forall nf k ms vs, members_final r nf k ms 
 Proof.
   induction r as [|[name c] t IH]; intros nf k ms vs D; destruct vs as [|v vs']; cbn [members_final members_init] in *; try exact I; try destruct D.
   split; [|eapply IH; eassumption].
-  eexists. split; [eassumption|]. destruct c; [exact I|reflexivity|exact I|reflexivity].
+  eexists. split; [eassumption|]. destruct c; [exact I|reflexivity|exact I|reflexivity|reflexivity].
 Qed.
 
 Lemma row_block_exec (bk : backend) (r : row) (n : nat) (ev : event) (st : state) :
@@ -541,11 +541,12 @@ Proof. induction r as [|[name c] t IH]; intros nf k; cbn [row_members rmems map 
 Lemma prow_members_names (cols : prow) : forall nf k, map m_name (prow_members cols nf k) = pmems cols nf k.
 Proof. induction cols as [|[name body] t IH]; intros nf k; cbn [prow_members pmems map m_name]; [reflexivity|]. rewrite IH. reflexivity. Qed.
 
-Lemma col_default (c : column) : match c with ColVec _ _ _ | ColVec2 _ _ _ _ _ => default_value (col_type c) = VVec [] | _ => True end.
+Lemma col_default (c : column) : match c with ColVec _ _ _ | ColVec2 _ _ _ _ _ | ColFlat _ _ _ _ _ => default_value (col_type c) = VVec [] | _ => True end.
 Proof.
-  destruct c as [e|cr ps body|cr ps body line|c1 g1 c2 g2 body]; try exact I; cbn [col_type]; unfold default_value.
+  destruct c as [e|cr ps body|cr ps body line|c1 g1 c2 g2 body|c1 g1 c2 g2 body]; try exact I; cbn [col_type]; unfold default_value.
   - rewrite vec_is_vector. reflexivity.
   - destruct (btype_cases body) as [E|E]; rewrite E; reflexivity.
+  - rewrite vec_is_vector. reflexivity.
 Qed.
 
 Lemma members_init_initial (L : list member) (r : row) : forall nf k,
